@@ -334,7 +334,13 @@ func costFamily(family string, n int) []costCall {
 		}
 		return append(calls, costPipeline(p, four)...)
 	}
-	panic("unknown family " + family)
+	return costFamilyErrors(family, n, p)
+}
+
+func costOracleID(i int) commontypes.OracleID { return commontypes.OracleID(i) }
+
+func ocr3typesMercuryConfig(n, f int, onchain, offchain []byte) ocr3types.MercuryPluginConfig {
+	return ocr3types.MercuryPluginConfig{N: n, F: f, OnchainConfig: onchain, OffchainConfig: offchain}
 }
 
 // ---------------------------------------------------------------- measuring (child side)
@@ -602,6 +608,7 @@ func init() {
 	})
 	RegGen("C19", "cost.measure (implementation only): per family a size-doubling series measured in child processes — nested timestamped values up to 1 MiB, "+
 		"up to 70 000 stream values / quotes, up to 200 000 remove votes and channel definitions, coefficients up to 1 MiB, exponent gaps up to 2^20, "+
+		"errors joined in a loop and formatted (5 definitions × up to 10 000 zero-aggregator streams, up to 4 000 failing definitions, up to 9 998 failing EVM payload values, mercury v3 Report with every consensus failing), "+
 		"and the F2 witness capped at 3 s; callbacks: ValidateObservation, ObservationCodec.Decode, Median/Quote/ModeAggregator, Outcome, Reports, Quote.IsValid, evm.CalculateFee; "+
 		"non-trivial = at least one callback measured", genC19Measure)
 	RegMonitor("C19", monC19Measure)
@@ -636,6 +643,10 @@ func genC19Measure(g *G) {
 		m("big-def", doubling(5000, 160000), nil)
 		m("long-digits", doubling(8192, 1<<20), []int{8192, 16384, 32768, 65536})
 		m("exp-gap", doubling(1<<12, 1<<20), doubling(1<<12, 1<<20))
+		m("verify-errors", append(doubling(125, 8000), 10000, 20000), doubling(125, 8000))
+		m("verify-errors-defs", append(doubling(125, 2000), 4000), nil)
+		m("evm-payload-errors", append(doubling(125, 8000), 9998), nil)
+		m("mercury-report-errors", []int{1}, nil)
 	} else {
 		m("nested-tsv", []int{2400, 19200, 78000}, []int{600, 1200, 2400})
 		m("nested1-bigvalue", []int{1 << 17, 1 << 19}, nil)
@@ -646,6 +657,10 @@ func genC19Measure(g *G) {
 		m("big-def", []int{80000, 160000}, nil)
 		m("long-digits", []int{1 << 18, 1 << 19, 1 << 20}, []int{32768, 65536})
 		m("exp-gap", []int{1 << 16, 1 << 18, 1 << 20}, []int{1 << 16, 1 << 18, 1 << 20})
+		m("verify-errors", []int{500, 2000, 10000}, []int{500, 2000})
+		m("verify-errors-defs", []int{500, 2000}, nil)
+		m("evm-payload-errors", []int{500, 2000, 9998}, nil)
+		m("mercury-report-errors", []int{1}, nil)
 	}
 	// the known finding F2, never run unbounded
 	m("f2", []int{0}, []int{0})
@@ -664,6 +679,9 @@ func monC19Measure(op J, res any) (viol []Violation, nontrivial bool) {
 	sig := "C19/superlinear-" + family
 	if family == "f2" || family == "exp-gap" {
 		sig = "C19/decimal-scale-blowup"
+	}
+	if strings.HasPrefix(family, "verify-errors") {
+		sig = "C19/superlinear-verify-errors"
 	}
 	for _, pv := range jArr(jObj(r["ok"])["points"]) {
 		p := jObj(pv)
